@@ -552,8 +552,6 @@ class ActionParser:
         def add_prefix(key):
             return re.sub("^--", "--" + prefix + ".", key)
 
-        required_args = {prefix + "." + x for x in subparser.required_args}
-
         option_string_actions = {}
         for key, action in filter_default_actions(subparser._option_string_actions).items():
             option_string_actions[add_prefix(key)] = action
@@ -564,6 +562,7 @@ class ActionParser:
 
         actions = []
         dest = prefix.replace("-", "_")
+        required_args = {dest + "." + x for x in subparser.required_args}
         for action in filter_default_actions(subparser._actions):
             if isinstance(action, ActionYesNo):
                 action._add_dest_prefix(prefix)
